@@ -26,5 +26,8 @@ for m in ms:
         print('%s: SILENT' % m['id'])
         continue
     print('%s: FIRED' % m['id'])
+    seen = {}
     for f in r['failing']:
-        print('    [%s] %s  props=%s  %s' % (f['rule'], f['key'], ','.join(f['props']), f['msg'].split('\n')[0][:200]))
+        seen.setdefault((f['rule'], f['key']), [set(), f['msg']])[0].update(f['props'])
+    for (rule, key), (props, msg) in seen.items():
+        print('    [%s] %s  props=%s  %s' % (rule, key, ','.join(sorted(props)), msg.split('\n')[0][:200]))
